@@ -128,6 +128,22 @@ pub fn run(ctx: &Ctx, ev: &mut Ev) {
             tx.end(ev);
         }
     }
+    // (3b) every (lead byte, second byte) cell of the UTF-8 validators / converters, completed by continuation bytes, short
+    // (scalar path) and behind a 61-byte pad (SIMD-validator path unless the scalar path is forced): one digest section
+    if (ctx.want("utf8-cells") || ctx.part.is_empty()) && !tiny && ev.mine() {
+        tx.begin("utf8-cells".into());
+        for a in 0xC0..=0xFFu32 { for b in 0..=0xFFu32 { for (ti, tail) in [&[][..], &[0x80u8][..], &[0xBF], &[0x80, 0x80], &[0xBF, 0xBF], &[0x80, 0x61]].iter().enumerate() { for pad in [0usize, 61] {
+            ev.case(); ev.nontrivial_enum();
+            let mut v = vec![b'a'; pad]; v.push(a as u8); v.push(b as u8); v.extend_from_slice(tail); v.push(b'z');
+            let bsl = drv.src8.carve_from(&v, (a as usize + ti) % 16);
+            let mut h = H::new();
+            match std::panic::catch_unwind(|| { let mut d16 = [0u16; 80]; let n = encoding_rs::mem::convert_utf8_to_utf16(bsl, &mut d16); (Encoding::utf8_valid_up_to(bsl), encoding_rs::mem::utf8_latin1_up_to(bsl), encoding_rs::mem::is_utf8_bidi(bsl), n, d16) }) {
+                Ok((x, y, z, n, d16)) => { h.u(x as u64).u(y as u64).u(z as u64).u16s(&d16[..n]); } Err(_) => { h.u(0xDEAD_0006); } }
+            ev.api_calls += 4;
+            tx.case(h.get(), || format!("bytes {}", hexs(&v)));
+        } } } }
+        tx.end(ev);
+    }
     // (4) label resolution and metadata are configuration independent too
     if ctx.want("labels") && ev.mine() {
         tx.begin("labels".into());
